@@ -2,8 +2,8 @@
   Non-vacuity examples and negation witnesses for C06 (evaluated by the kernel with `decide`).
 -/
 import FcProofs.Props.C06
-namespace Fc
-open Spec
+namespace Fc.C06
+open Fc.C06.Spec
 
 /-! ### finding F3: a later piece without a new point is dropped with all its cells -/
 
@@ -46,8 +46,10 @@ def wsB : MeshFields :=
   ⟨⟨2, [[0, 1], [0, 0], [1, 1]], [("TRIANGLE", [[1, 2, 0]])]⟩,
    [⟨"p", ⟨.int true 32, [3], [40, 10, 30]⟩⟩], [⟨"c", "TRIANGLE", ⟨.flt f64, [1], [8]⟩⟩]⟩
 
-example : PieceOk wsA 2 ["c"] ["p"] (fun _ => 1) (fun _ => 1) := by constructor <;> decide
-example : PieceOk wsB 2 ["c"] ["p"] (fun _ => 1) (fun _ => 1) := by constructor <;> decide
+example : PieceOk wsA 2 ["c"] ["p"] (fun _ => 1) (fun _ => 1) (fun _ => .flt f64) (fun _ => .int true 32) := by
+  constructor <;> decide
+example : PieceOk wsB 2 ["c"] ["p"] (fun _ => 1) (fun _ => 1) (fun _ => .flt f64) (fun _ => .int true 32) := by
+  constructor <;> decide
 example : bringsNewPoint wsA.mesh.points wsB.mesh.points = true ∧ f3Class [wsA, wsB] = false ∧
     f3Class [wsB, wsA] = false := by decide
 example : wsWhole.mesh.points.Nodup := by decide
@@ -59,9 +61,10 @@ example : (∀ f ∈ [wsA, wsB], ∀ it ∈ pointItemsOf f ["p"], it ∈ pointIt
 -- all hypotheses of `C06_unstructured_partial` hold together (with the driver's sort): the theorem applies
 example : ∃ m, mergeAll lexsortIdx [wsB, wsA] = some m ∧
     (∀ ct, (cellItemsOf m ["c"] ct).Perm (cellItemsOf wsWhole ["c"] ct)) ∧
-    (pointItemsOf m ["p"]).Perm (pointItemsOf wsWhole ["p"]) ∧ m.mesh.points.Nodup :=
+    (pointItemsOf m ["p"]).Perm (pointItemsOf wsWhole ["p"]) ∧ m.mesh.points.Nodup ∧
+    PieceOk m 2 ["c"] ["p"] (fun _ => 1) (fun _ => 1) (fun _ => .flt f64) (fun _ => .int true 32) :=
   C06_unstructured_partial lexsortIdx (fun pts d h => lexsortIdx_isLexSort pts d h) 2 ["c"] ["p"]
-    (fun _ => 1) (fun _ => 1) wsWhole [wsB, wsA]
+    (fun _ => 1) (fun _ => 1) (fun _ => .flt f64) (fun _ => .int true 32) wsWhole [wsB, wsA]
     (by intro f hf
         simp only [List.mem_cons, List.not_mem_nil, or_false] at hf
         rcases hf with rfl | rfl <;> (constructor <;> decide))
@@ -124,4 +127,4 @@ example : pvtrOrdinates (structuredDecomposition [[0, 1, 0, 1, 0, 0], [1, 3, 0, 
 example : pvtrOrdinates (structuredDecomposition [[0, 1, 0, 0, 0, 1], [0, 1, 0, 0, 1, 3]])
     [[[0, 10], [0], [0, 5]], [[0, 10], [0], [5, 6, 7]]] = some [[0, 10], [0], [0, 0, 5, 0]] := by decide
 
-end Fc
+end Fc.C06
